@@ -545,9 +545,25 @@ func (cs *chargingStation) SendRequestAsync(request ocpp.Request, callback func(
 
 // stopC is the stop signal of this session: Start replaces the field for the next one
 func (cs *chargingStation) asyncCallbackHandler(stopC chan struct{}) {
+	stopped := func() bool {
+		select {
+		case <-stopC:
+			return true
+		default:
+			return false
+		}
+	}
 	for {
+		// The stop signal comes first: a select with a conclusion and the stop signal both ready picks either.
+		// Once stopped, nothing is delivered any more and whatever waits belongs to this session or a later one.
+		if stopped() {
+			return
+		}
 		select {
 		case c := <-cs.conclusions:
+			if stopped() {
+				return
+			}
 			// Get and invoke callback
 			if callback, ok := cs.callbacks.Dequeue("main"); ok {
 				callback(c.response, c.err)
@@ -559,9 +575,8 @@ func (cs *chargingStation) asyncCallbackHandler(stopC chan struct{}) {
 				cs.error(err)
 			}
 		case <-stopC:
-			// Handler stopped, cleanup callbacks.
-			// No callback invocation, since the user manually stopped the client.
-			cs.clearCallbacks(false)
+			// Handler stopped. The callbacks were cleaned up by Stop: when this routine gets here
+			// (it may have been busy in a callback) the endpoint may be running its next session.
 			return
 		}
 	}
@@ -649,6 +664,8 @@ func (cs *chargingStation) StartWithRetries(csmsUrl string) {
 func (cs *chargingStation) Stop() {
 	cs.client.Stop()
 	close(cs.stopC)
+	// Cleanup callbacks. No callback invocation, since the user manually stopped the client.
+	cs.clearCallbacks(false)
 }
 
 func (cs *chargingStation) IsConnected() bool {
